@@ -17,8 +17,13 @@ static FunctionIndex get_function(CPPInstance *function, std::string description
   return vin_index_default;
 }
 //@block src/interrogate/interrogateBuilder.cxx "start=  // See if we need to generate an implicit default constructor." "end=  if (!cpptype->is_destructible()) {" "head=void vu_implicit_members(InterrogateType &itype, CPPStructType *cpptype)" include_end=0
+// the guard of get_function that refuses constructors of abstract classes (block R5; the tail `return 1;` stands for "the
+// function goes on and registers the function")
+static bool vin_is_abstract;
+//@block src/interrogate/interrogateBuilder.cxx "start=  if ((ftype->_flags & CPPFunctionType::F_constructor) &&" "end=  TypeIndex class_index = 0;" "head=int vu_abstract_guard(CPPFunctionType *ftype, CPPStructType *struct_type, int flags)" include_end=0 "tail=return 1;"
 }
 using namespace builder;
+bool CPPStructType::is_abstract() const { return builder::vin_is_abstract; }
 void h_implicit_constructors() {
   static CPPStructType cls; static InterrogateType itype; static CPPInstance declared((CPPType *)0, std::string("S"));
   vin_has_declared_ctor = nondet_bool(); vin_default_constructible = nondet_bool(); vin_has_declared_copy_ctor = nondet_bool(); vin_copy_constructible = nondet_bool();
@@ -33,5 +38,18 @@ void h_implicit_constructors() {
   OBL(g_default_calls == (want_default ? 1 : 0), "C10.implicit_members: a default constructor is synthesised exactly if the class declares no constructor and is default-constructible");
   OBL(g_copy_calls == (want_copy ? 1 : 0), "C10.implicit_members: a copy constructor is synthesised exactly if the class declares no copy constructor (an explicitly defaulted, deleted or non-public one is declared) and is copy-constructible");
   OBL(itype._constructors._n == (size_t)((want_default ? 1 : 0) + (want_copy ? 1 : 0)), "C10.implicit_members: exactly the synthesised constructors are added to the type's constructor list");
+  VU_REACHED();
+}
+
+// ---- never a constructor for an abstract class: whatever flags the caller passes (declared constructors come with
+// flags == 0, synthesised ones with F_constructor), a function whose TYPE says constructor is refused for an abstract class
+void h_no_constructor_for_abstract_class() {
+  static CPPStructType cls; static CPPType ret; static CPPParameterList pl;
+  int vin_ftype_flags = nondet_int(), vin_flags = nondet_int(); bool vin_member = nondet_bool();
+  CPPFunctionType ft(&ret, &pl, vin_ftype_flags);
+  builder::vin_is_abstract = nondet_bool();
+  int r = builder::vu_abstract_guard(&ft, vin_member ? &cls : (CPPStructType *)0, vin_flags);
+  bool is_ctor = (vin_ftype_flags & CPPFunctionType::F_constructor) != 0;
+  OBL((r == 0) == (is_ctor && vin_member && builder::vin_is_abstract), "C10.get_function: a constructor (declared or synthesised) of an abstract class is never registered; every other function is");
   VU_REACHED();
 }
